@@ -782,7 +782,7 @@ func (w *dw) appActor() {
 			w.dirtyHist = false
 		case "corrupt":
 			w.T.Corrupt(o.Seed)
-			w.Tty.Faults["corrupt"]++
+			w.Tty.Faults.Inc("corrupt")
 			w.corrupted = true
 			w.dirtyHist = true
 		case "resize":
@@ -792,7 +792,7 @@ func (w *dw) appActor() {
 }
 
 func (w *dw) doResize(o op) {
-	w.Tty.Faults["resize"]++
+	w.Tty.Faults.Inc("resize")
 	w.dirtyHist = true
 	w.Tty.Resize(o.W, o.H)
 	w.T.Resize(o.W, o.H)
@@ -857,7 +857,7 @@ func (w *dw) sample() interface{} {
 		ops = append(ops, o.String())
 	}
 	return map[string]interface{}{"config": w.Cfg.String(), "ops": ops, "shows_stamp_checked": w.showsChecked,
-		"faults": w.Tty.Faults, "decisions": w.S.Steps, "bytes_written": w.Tty.WriteOut}
+		"faults": w.Tty.Faults.Map(), "decisions": w.S.Steps, "bytes_written": w.Tty.WriteOut}
 }
 
 // ------------------------------------------------------------------- run --
@@ -915,7 +915,7 @@ func runDraw(t *rapid.T, prop string) {
 	for _, pn := range w.Panics() {
 		w.fail(prop+"/panic", "panic: %s", pn)
 	}
-	hx.St.Record(s, w.Tty.Faults, func() interface{} { return w.sample() })
+	hx.St.Record(s, w.Tty.Faults.Map(), func() interface{} { return w.sample() })
 	hx.St.Probes["shows_stamp_checked"] += w.showsChecked
 	for k, v := range w.T.Unmodelled {
 		hx.St.Probes["unmodelled:"+k] += v
